@@ -274,7 +274,7 @@ package sfnt
 //@ func (s *subsetter) SubsetGpos(old *gtab.Info) (res *gtab.Info)   props: C10
 //@   requires s != nil && s.newGid != nil
 //@   requires old != nil ==> forall i int :: 0 <= i && i < len(old.LookupList) ==> old.LookupList[i] != nil
-//@   any x0 uint16, y0 uint16
+//@   any x0 uint16, y0 uint16, a0 uint16, b0 uint16
 //@   ensures old == nil ==> res == nil
 //@   ensures old != nil ==> res != nil && fresh(res) && len(res.LookupList) == len(old.LookupList)
 //@   ensures old != nil ==> forall i int :: 0 <= i && i < len(old.LookupList) ==> res.LookupList[i] != nil && len(res.LookupList[i].Subtables) == len(old.LookupList[i].Subtables) && res.LookupList[i].Meta == old.LookupList[i].Meta
@@ -295,6 +295,8 @@ package sfnt
 //@     invariant forall i2 int :: 0 <= i2 && i2 < i ==> res.LookupList[i2] != tNew
 //@     invariant 0 <= j && j < len(tOld.Subtables) && sNew != nil && fresh(sNew) && sNew != sOld
 //@     invariant seen(sOld, glyph.Pair{x0, y0}) && has(s.newGid, x0) && has(s.newGid, y0) ==> has(sNew, glyph.Pair{s.newGid[x0], s.newGid[y0]})
+//@     invariant has(sNew, glyph.Pair{a0, b0}) ==> exists x uint16 :: exists y uint16 :: hint(x, pair.Left) && hint(y, pair.Right) && has(sOld, glyph.Pair{x, y}) && has(s.newGid, x) && has(s.newGid, y) && s.newGid[x] == a0 && s.newGid[y] == b0
+//@     exit_assert has(sNew, glyph.Pair{a0, b0}) ==> exists x uint16 :: exists y uint16 :: has(sOld, glyph.Pair{x, y}) && has(s.newGid, x) && has(s.newGid, y) && s.newGid[x] == a0 && s.newGid[y] == b0
 //@     exit_assert has(sOld, glyph.Pair{x0, y0}) && has(s.newGid, x0) && has(s.newGid, y0) ==> has(sNew, glyph.Pair{s.newGid[x0], s.newGid[y0]})
 //@ func (s *subsetter) SubsetGdef(old *gdef.Table) (res *gdef.Table)   props: C10
 //@   ensures old == nil ==> res == nil
